@@ -261,9 +261,12 @@ class _StepGraph:
         Args:
             path: The path to the step in the hierarchy.
         """
-        if path not in self._sequential_steps:
-            # (a step that is replaced in place keeps its position)
-            self._sequential_steps.append(path)
+        if path in self._sequential_steps:
+            # a step that is generated again at a path (in the place of
+            # another one) is declared now: it runs after the
+            # steps added before it, and only once
+            self._sequential_steps.remove(path)
+        self._sequential_steps.append(path)
         self._validate()
 
     def get_execution_layers(self) -> List[List[HierarchyPath]]:
